@@ -133,7 +133,7 @@ def run(ck):
                     lo, hi = first["h"], last["h"]
                     if (lo - 1 in byh and not adj(byh[lo - 1], first)) or (hi + 1 in byh and not adj(last, byh[hi + 1])):
                         linked = False
-        if ev.get("name") == "par":
+        if ev.get("name") in ("par", "par2"):
             # two concurrent inserts that no sequential order explains: unlinked neighbours in the store afterwards
             # are C21's, a refused insert that left traces is C20's, anything else C19's
             desc = {}
@@ -145,7 +145,7 @@ def run(ck):
             linked = all(adj(byh[h], byh[h + 1]) for h in byh if h + 1 in byh)
             failing = ev.get("ra") != 1 or ev.get("rb") != 1
             ev = dict(ev, res=ev.get("ra") if ev.get("ra") != 1 else ev.get("rb"))
-        if inv == "SegmentsLinked" or (ev.get("name") in ("insert", "par") and not linked and (ev.get("name") == "par" or ev.get("res") == 1)):
+        if inv == "SegmentsLinked" or (ev.get("name") in ("insert", "par", "par2") and not linked and (ev.get("name") != "insert" or ev.get("res") == 1)):
             # a batch that is not hash-linked was accepted: the store now holds unlinked neighbours
             owner = "C21"
         elif failing:
